@@ -562,6 +562,21 @@ func (c *c05Checker) After(w *World, ev *Event) []Failure {
 		return []Failure{fail("C05.refine", "setter", name, "value", q(ev.Val), "field", f, "real", q(a), "standard", q(b), "before", q(w.Prev[ev.Target].Href),
 			"tab-newline-removal-joins-utf8", fmt.Sprint(tabRemovalJoinsUTF8(ev.Val)))}
 	}
+	// every other URL of the world has its own sequence of setter calls, to which this call does not
+	// belong: it must still be where the standard's steps, applied to its own sequence, left it
+	for _, id := range w.uids() {
+		bh := w.U[id]
+		if id == ev.Target || bh == nil || bh.M == nil || bh.MDead {
+			continue
+		}
+		if f, a, b := diffPrimary(w.Cur[id].Primary(), modelPrimary(bh.M)); f != "" {
+			bh.MDead = true
+			c.stop = true
+			return []Failure{fail("C05.refine", "setter", name, "value", q(ev.Val), "field", f, "real", q(a), "standard", q(b),
+				"bystander", fmt.Sprintf("u%d (%s of u%d) changed by a setter call on u%d", id, bh.Prov, bh.From, ev.Target),
+				"tab-newline-removal-joins-utf8", "false")}
+		}
+	}
 	return nil
 }
 
